@@ -223,6 +223,35 @@ func runC08(c *Ctx) {
 		uses := len(callsByName(fn, "ValidatorsStat", "GetStakeByKind")) > 0
 		c.Check(fname(fn)+"#total-stake-source", fn.Pos(), uses, ifelse(uses, "reads GetStakeByKind", "the total stake no longer comes from the maintained statistics"))
 	}
+
+	// ------------------------------------------------------------ V6
+	c.Rule("C08.V6", "STALE-AFTER-REPLACE", "UpdateValidator(new, old) takes old's amounts out of the statistics and puts new's in, so old must be the record currently in the state: on no path is a validator value used as the pre-image of a replacement after another replacement (UpdateValidator, or a callee that replaces its parameter) already superseded it")
+	c.Min(10)
+	stalePreImages(c, w, w.FuncObj("core/state", "StateDB", "UpdateValidator"), "the statistics are adjusted by the difference to a record that is no longer the stored one, so the online/offline totals drift from the sum of the records (or the zero clamp silently skips the subtraction)")
+
+	// ------------------------------------------------------------ V7
+	c.Rule("C08.V7", "OWNERSHIP", "Validator.DeepCopy gives the copy its own delegation entries: slashing edits an entry's Token and Stake in place, so an entry shared between two states breaks Token == SelfToken + Σ delegations in the state that did not apply the penalty")
+	c.Min(1)
+	vdc := w.Fn("core/state", "Validator", "DeepCopy")
+	c.sawFunc(fname(vdc))
+	dlgF := w.Field("core/state", "Validator", "Delegations")
+	shared := sharedElements(vdc)
+	elemCopied := false
+	for _, b := range vdc.Blocks {
+		for _, in := range b.Instrs {
+			if st, ok := in.(*ssa.Store); ok {
+				if ia, ok := st.Addr.(*ssa.IndexAddr); ok {
+					if f, _ := loadedField(stripConv(ia.X)); f == dlgF {
+						if cc, ok := stripConv(st.Val).(*ssa.Call); ok && calleeObj(cc) != nil && calleeObj(cc).Name() == "DeepCopy" {
+							elemCopied = true
+						}
+					}
+				}
+			}
+		}
+	}
+	c.sites++
+	c.Check(fname(vdc)+"#delegation-entries-copied", vdc.Pos(), len(shared) == 0 && elemCopied, ifelse(len(shared) == 0 && elemCopied, "every entry stored into the copy's delegation slice is the result of DelegationFrom.DeepCopy", "the copy's delegation slice holds the source's *DelegationFrom entries: a penalty applied through one state edits the entries of the other, whose totals and statistics were not adjusted"))
 }
 
 func incArgLoose(pred func(ssa.Value) bool, v ssa.Value) bool {
